@@ -201,6 +201,162 @@ def check_schedule(c, rec):
         rec.nontriv([[(n, w if isinstance(w, str) else list(w)) for n, w in trace][:80]])
 
 
+# ---------------------------------------------------------------------------------------- engine A': real queries under owned schedules
+
+QUERY_OPS = ["nv", "colors", "cell", "kitty", "probe", "poll", "poll", "poll_read", "start"]
+
+
+@st.composite
+def query_programs(draw):
+    from .c12 import color_spec
+
+    nthreads = draw(st.integers(2, 4))
+    threads = []
+    pid = 0
+    for _ in range(nthreads):
+        acts = []
+        for _ in range(draw(st.integers(1, 4))):
+            k = draw(st.sampled_from(QUERY_OPS))
+            if k == "probe":
+                pid += 1
+                acts.append(["probe", 100 + pid])
+            else:
+                acts.append([k])
+        threads.append(acts)
+    if not any(a[0] in ("poll", "poll_read") for t in threads for a in t):
+        threads[-1].append(["poll"])
+    if not any(a[0] in ("nv", "colors", "kitty") for t in threads for a in t):
+        threads[0].insert(0, [draw(st.sampled_from(["nv", "colors", "kitty"]))])
+    name = draw(st.sampled_from(["kitty", "konsole", "WezTerm", "XTerm"]))
+    profile = {
+        "xtversion": draw(st.sampled_from([None, ["paren", name, "1.2.3"], ["space", name, "0.26.5"]])),
+        "fg": draw(st.one_of(st.none(), color_spec())), "bg": draw(st.one_of(st.none(), color_spec())),
+        "osc_term": draw(st.sampled_from(["ST", "BEL"])), "da1": True,
+        "winops14": draw(st.sampled_from([None, [600, 800], [480, 1280]])),
+        "winops16": draw(st.sampled_from([None, None, [20, 10], [18, 9]])),
+        "kitty": draw(st.sampled_from([None, "OK", "OK", "ENOTSUP:c is not supported"])),
+        # reply scheduling: every reply well inside the query timeout (3 replies at most per query)
+        "delays": draw(st.lists(st.sampled_from([0.0, 0.0, 0.001, 0.01]), min_size=1, max_size=3)),
+    }
+    return {"threads": threads, "profile": profile, "win": [draw(st.integers(1, 120)), draw(st.integers(1, 50)), 0, 0],
+            "schedule": draw(st.lists(st.integers(0, 5), min_size=1, max_size=60))}
+
+
+def check_query_schedule(c, rec):
+    """Real query functions of the library on the simulated terminal, real threads, schedule owned by the
+    harness (scheduling points = every acquire/release of the terminal lock).  Every query must return exactly
+    the reply the terminal gave to it; a thread that just reads pending input (an input loop) must get nothing,
+    since no keyboard input is ever injected: anything it gets is (part of) a reply that belongs to a querying
+    thread."""
+    from multiprocessing import Process
+
+    from .. import simtty
+    from ..ref import queries as R
+    from ..sched import Deadlock, ProcSLock, Scheduler, ThreadSLock
+    import term_image.image.kitty as K
+
+    T = simtty.TERM
+    p = c["profile"]
+    sched = Scheduler(c["schedule"])
+    saved = {k: getattr(U, k) for k in ("_tty_lock", "_rlock_type", "mp_RLock", "_cell_size_lock", "_cell_size_cache", "Array",
+                                        "_queries_enabled", "_swap_win_size", "_query_timeout")}
+    saved_env = {k: os.environ.pop(k, None) for k in ("TERM_PROGRAM", "TERM_PROGRAM_VERSION", "SHELL")}
+    nlocks = [0]
+
+    def new_mp_lock():
+        nlocks[0] += 1
+        return ProcSLock(sched, f"mp{nlocks[0]}")
+
+    class FakeArray(list):
+        def __init__(self, typ, init):
+            super().__init__(init)
+            self._lock = new_mp_lock()
+
+        def get_lock(self):
+            return self._lock
+
+    U._tty_lock = ThreadSLock(sched, "tty0")
+    U._rlock_type = ThreadSLock
+    U.mp_RLock = new_mp_lock
+    U._cell_size_lock = ThreadSLock(sched, "cell0")
+    U._cell_size_cache = [0] * 4
+    U.Array = FakeArray
+    U._queries_enabled, U._swap_win_size, U._query_timeout = True, False, 0.1
+    U._process_start_wrapper.__wrapped__ = lambda self, *a, **k: None
+    simtty.set_winsize(*c["win"])
+    T.reset(p)
+    results = []  # (thread, op, got, expected)
+    kitty_reply = b"" if p["kitty"] is None else b"\x1b_Gi=31;" + p["kitty"].encode() + b"\x1b\\"
+    nv = U.get_terminal_name_version.__wrapped__  # not through @cached: its internal (real) lock is not a scheduling point
+    colors = U.get_fg_bg_colors.__wrapped__
+
+    def make(name, acts):
+        def run():
+            for a in acts:
+                k = a[0]
+                if k == "nv":
+                    results.append((name, k, nv(), R.name_version(p, {})))
+                elif k == "colors":
+                    results.append((name, k, colors(), R.colors(p)))
+                elif k == "cell":
+                    U._cell_size_cache[:] = [0] * 4
+                    got = U.get_cell_size()
+                    results.append((name, k, got and tuple(got), R.cell_size(p, c["win"], False, {})))
+                elif k == "kitty":
+                    results.append((name, k, K._query_support(), kitty_reply + b"\x1b["))
+                elif k == "probe":
+                    msg = b"\x1b]7777;%d\x1b\\" % a[1]
+                    results.append((name, k, U.query_terminal(msg, lambda s: not s.endswith(b"\x1b\\")), msg))
+                elif k == "poll":
+                    results.append((name, k, U.read_tty_all(), b""))
+                elif k == "poll_read":
+                    results.append((name, k, U.read_tty(), b""))
+                else:
+                    Process(target=print).start()
+        return run
+
+    for i, acts in enumerate(c["threads"]):
+        sched.spawn(f"T{i}", make(f"T{i}", acts))
+    err = None
+    trace = []
+    try:
+        trace = sched.run()
+    except Deadlock as e:
+        err = Violation(f"deadlock under schedule {c['schedule']}: {e}; threads={c['threads']}", {"kind": "deadlock"})
+    finally:
+        for k, v in saved.items():
+            setattr(U, k, v)
+        for k, v in saved_env.items():
+            if v is not None:
+                os.environ[k] = v
+        U._process_start_wrapper.__wrapped__ = ORIG_START
+    if err:
+        raise err
+    what = f"threads={c['threads']} schedule={c['schedule']} profile={p} win={c['win']}"
+    for t in sched.threads:
+        if t.exc is not None:
+            raise Violation(f"thread {t.name} raised {type(t.exc).__name__}: {t.exc} [{what}]",
+                            {"kind": "thread_exception", "exc": type(t.exc).__name__})
+    for name, k, got, exp in results:
+        if got != exp:
+            if k.startswith("poll"):
+                raise Violation(f"thread {name} only read pending terminal input and received {got!r}: (part of) a reply that "
+                                f"belongs to a querying thread [{what}]\n  results={results}", {"kind": "reply_to_other_caller"})
+            raise Violation(f"thread {name}: {k} returned {got!r}, the terminal's reply to it means {exp!r} [{what}]\n  results={results}",
+                            {"kind": "wrong_reply", "op": k})
+    left = T.unread_bytes()
+    if left:
+        raise Violation(f"reply bytes {left!r} were left unread by the query they answer (the next reader gets them) [{what}]",
+                        {"kind": "reply_left_unread"})
+    nq = sum(1 for r in results if not r[1].startswith("poll"))
+    blocked = any(isinstance(ev[1], tuple) and ev[1][0] == "blocked" and ev[1][1].startswith(("tty", "mp")) for ev in trace)
+    rec.label("contended" if blocked else "uncontended", "with_start" if nlocks[0] else "no_start",
+              *sorted({r[1] for r in results}))
+    rec.count("queries", nq)
+    if blocked and nq:
+        rec.nontriv([[(n, w if isinstance(w, str) else list(w)) for n, w in trace][:80]])
+
+
 # ---------------------------------------------------------------------------------------- engine B
 
 def run_procs(method, variant, rounds, seed):
@@ -290,6 +446,8 @@ def check_reentrant(case, rec):
 CLAUSES = [
     Clause("schedules", check_schedule, programs, budget={"quick": 1500, "thorough": 40000},
            floors={"with_start": 0.3, "blocked_on_old": 0.03}),
+    Clause("query_schedules", check_query_schedule, query_programs, budget={"quick": 600, "thorough": 20000},
+           floors={"contended": 0.3}),
     Clause("reentrant", check_reentrant, None, enumerate=lambda tier: [[d, s_] for s_ in (False, True) for d in (1, 2, 3)],
            enum_size=lambda t: 6, max_shards=1),
     Clause("processes", check_procs, None, enumerate=proc_cases, enum_size=lambda t: len(proc_cases(t)), max_shards=6, enum_per_shard=1),
